@@ -374,6 +374,62 @@ func TestVerifC12Stress(t *testing.T) {
 			bad = append(bad, res{Round: r, Writes: nw, Want: want.Len(), Got: got.Len(), FirstDiff: fd})
 		}
 	}
-	b, _ := json.Marshal(map[string]any{"rounds": rounds, "completed": total, "bad": bad})
+	// the storing side fails after it has consumed some bytes while the writer is (far) ahead: some Write
+	// or Close must report the error, and Close must return
+	failBad := []string{}
+	failRounds := 0
+	for _, ahead := range []int{0, 1000, 40000, 200000, 1 << 20} {
+		for _, failAfter := range []int{0, 1, 32768, 70000} {
+			failRounds++
+			rw := NewReadWriter()
+			rw.Add(1)
+			errStore := fmt.Errorf("injected store failure")
+			started := make(chan struct{})
+			go func() {
+				defer rw.Done()
+				close(started)
+				buf := make([]byte, 32*1024)
+				consumed := 0
+				for consumed < failAfter || failAfter == 0 {
+					if failAfter == 0 {
+						break
+					}
+					n, err := rw.Read(buf)
+					consumed += n
+					if err != nil {
+						return
+					}
+				}
+				rw.SetError(errStore)
+			}()
+			<-started
+			res := make(chan error, 1)
+			go func() {
+				var first error
+				chunk := make([]byte, failAfter+ahead+1)
+				if _, err := rw.Write(chunk); err != nil && first == nil {
+					first = err
+				}
+				for i := 0; i < 3; i++ {
+					if _, err := rw.Write([]byte("more")); err != nil && first == nil {
+						first = err
+					}
+				}
+				if err := rw.Close(); err != nil && first == nil {
+					first = err
+				}
+				res <- first
+			}()
+			select {
+			case err := <-res:
+				if err == nil {
+					failBad = append(failBad, fmt.Sprintf("storing side failed after %d bytes with the writer %d bytes ahead: every Write and Close returned nil", failAfter, ahead))
+				}
+			case <-time.After(5 * time.Second):
+				failBad = append(failBad, fmt.Sprintf("storing side failed after %d bytes with the writer %d bytes ahead: Write/Close never returned", failAfter, ahead))
+			}
+		}
+	}
+	b, _ := json.Marshal(map[string]any{"rounds": rounds, "completed": total, "bad": bad, "store_failure_rounds": failRounds, "store_failure_bad": failBad})
 	os.WriteFile(filepath.Join(out, "c12.stress.json"), b, 0o644)
 }
